@@ -275,7 +275,7 @@ type 'p fam = {
   parts : 'p -> (string * bytes list * coq_N outcome) list;
   inv : 'p -> bool;
   valid : 'p -> bool;
-  specparse : bytes -> 'p option;
+  specparse : bool -> bytes -> 'p option;
 }
 
 let fam3 prof : M3.packet fam = {
@@ -491,7 +491,10 @@ let fam_ops : 'p. 'p fam -> profile -> string -> ts -> string = fun f prof op t 
     Printf.sprintf "res=%s;state=%s" res st
   | "specparse" ->
     let d = hex t in
-    (match f.specparse d with Some p -> "ok " ^ f.show p | None -> "reject")
+    (match f.specparse true d with Some p -> "ok " ^ f.show p | None -> "reject")
+  | "specparse_lenient" ->
+    let d = hex t in
+    (match f.specparse false d with Some p -> "ok " ^ f.show p | None -> "reject")
   | "valid" ->
     let p = f.parse t in
     Printf.sprintf "valid=%s;inv=%s" (sb (f.valid p)) (sb (f.inv p))
@@ -613,6 +616,18 @@ let run_case (prof : profile) (line : string) : string =
      | "to_io" -> let i = inum t in let e = err_table.(i) in Printf.sprintf "%s;eof=%s" (skind (to_io e)) (sb (is_eof e))
      | "v5_common" -> let i = inum t in let e = err_table.(i) in Printf.sprintf "%s;eof=%s" (serr e) (sb (is_eof e))
      | _ -> bad "errconv")
+  | "big" ->
+    let fam = next t in
+    (match next t with "publish" -> () | _ -> bad "big-kind");
+    let tl = num t in let q = num t in let pl = num t in
+    let r = if fam = "v3" then M3.encode_shape (M3.publish_shape_len tl q pl)
+      else M5.encode_shape (M5.publish_shape_len tl q N0 pl) in
+    Printf.sprintf "len=%s;enc=%s" (sout sn r) (sout sn r)
+  | "kf1" ->
+    let n = inum t in
+    let body = n_of_int (n * (5 + 2 * 65535)) in
+    let r = M5.encode_shape (M5.ack_shape_len body) in
+    Printf.sprintf "len=%s;enc=%s" (sout sn r) (sout sn r)
   | "cross" ->
     let fam = next t in
     let d = hex t in
